@@ -5,7 +5,7 @@ N in 0..=4 (and out-of-range indices for remove / swap_remove), checking the dro
 import os, re, shutil
 from common import *
 
-STANDIN_PROPS = ('C04', 'C05', 'C09')
+STANDIN_PROPS = ('C04', 'C05', 'C09', 'C16')
 BOUND = 'N in 0..=4; every call index 0..=N of each closure/Clone/next; every single panicking element x every (front, back) iterator position x skip counts {0,1,2,N,usize::MAX}; idx in {N, N+1, usize::MAX} for remove/swap_remove'
 
 
